@@ -2,7 +2,16 @@ from common import COMMON_TB
 
 CONFIG = {
     "lean_modules": ["SA.Props.C05"],
-    "level_text": "Trust anchors: C05_pools_exactly_configured (in every configuration that loads - plain, client, server - RootCAs and "
+    # a regression of the class "authentication remembered from an earlier connection" keeps state in the process: name
+    # a failing input that fails when run alone in a fresh harness process (see check: confirm_replay)
+    "confirm_replay": True,
+    "confirm_replay_prefer": r"^tlshist seqn? \S+ \S+ \S+ \S+ \S+ .*\S+,\S+,\S+,\S",   # histories whose configuration changes between attempts
+    "level_text": "Nothing remembered between connections: C05_history_independent / _seq / _config / _auth_sound / _auth_complete over histories of one process in which the client "
+                  "configuration IN FORCE changes between the attempts (CA replaced, client certificate dropped, verification switched, another configuration object), from any state of "
+                  "the configuration object and ANY store of TLS session tickets: attempt k hands crypto/tls, and is established, exactly as the attempt made alone under the options in force for it; "
+                  "C05_session_state_inventory (regenerated: no site gives a tls.Config a ClientSessionCache that outlives it, ticket keys or ticket callbacks), witnesses C05_witness_session_cache_* "
+                  "(with such a cache: CA replaced / second object / no client certificate are all admitted; first connection, restarted server, StartTLS stay correct). "
+                  "Trust anchors: C05_pools_exactly_configured (in every configuration that loads - plain, client, server - RootCAs and "
                   "ClientCAs list precisely the configured CA certificates, nil when none is configured), C05_auth_sound_configured_anchor / "
                   "C05_auth_sound_server_configured_anchor (for every oracle whose chains end in one certificate of the pool given: a verified "
                   "session / an admitted client means the peer chains to ONE OF THE CONFIGURED CA certificates - never a system root, a cached or "
@@ -25,7 +34,8 @@ CONFIG = {
                   "a new *tls.Config per call) are regenerated from the source on every run; the model is tied to the code by comparing every "
                   "field of the real tls.Config on enumerated option classes by an end-to-end certificate "
                   "matrix on the real servers/upstreams, and by multi-attempt histories (real Upstreams fail-over walk, "
-                  "connect/disconnect/connect, mixed upstream kinds) through one real cert.ClientConfig.",
+                  "connect/disconnect/connect, mixed upstream kinds) through one real cert.ClientConfig, incl. the SAME server endpoint (one listener, one set of session-ticket keys) connected to repeatedly while the client "
+                  "configuration is changed in place (CA file replaced on disk) or a configuration object per attempt is used, and servers replaced on the same port.",
     "level_note": "Partial on crypto: crypto/tls and crypto/x509 (chain building, expiry, name matching, the meaning "
                   "of InsecureSkipVerify and ClientAuth) are a universally quantified contract record in the "
                   "theorems, exercised but not verified by the matrix (10 server certificate classes x 9 client "
@@ -76,11 +86,14 @@ CONFIG = {
             "random options; per attempt established|refused|skipped and the ServerName / InsecureSkipVerify of the "
             "config the attempt handed to crypto/tls are compared with the model; monitor = the property per attempt "
             "for THIS upstream's host name; host forms (6 through tcp / tcp+tls, 6 through pipe, x {good, untrusted}) alone, "
-            "after stdin+tls, after a dead upstream in a walk, before a plainly named upstream.  non-trivial = the config loaded / the session was established; distinct = distinct op line",
+            "after stdin+tls, after a dead upstream in a walk, before a plainly named upstream; same-endpoint histories (tcp+tls, tcp, pipe, wss) x {seq = one object changed in place, seqn = object per attempt} x {TLS 1.3, capped at 1.2}: "
+            "per-attempt client CA (A/B/none), client certificate (good/none/foreign/expired), insecure flag, server restarted on the same port with the same / a foreign-CA / wrong-host / expired certificate; "
+            "tlscfg cfg loads twice and reports a ClientSessionCache shared between the two results, SessionTicketKey, Wrap/UnwrapSession.  non-trivial = the config loaded / the session was established; distinct = distinct op line",
     "trusted_base": COMMON_TB + [
         "model SA.Model.TlsConfig hand-written; tied by per-field comparison with the real tls.Config, per-cell comparison of the matrix and per-attempt comparison of the histories",
         "go/extract/x_c05.go shape recognition (guard polarity, ServerName derivations, pbkdf2 argument lists, new-object-per-call shape of GetTlsConfig, provenance of the CA pool in addCaCertificates)",
         "Go on Linux reads the system roots once per process from SSL_CERT_FILE / SSL_CERT_DIR (the harness checks at start-up that the system pool holds exactly its CA S and refuses to run otherwise); CertPool.Subjects() lists a pool's certificates (backed by a verification probe per pool)",
+        "crypto/tls session resumption (tickets issued by default, resumption only through a ClientSessionCache on the client config, no certificate exchange on a resumed handshake): contract model (Ticket, resumable, sessionWithT), executed only where the regenerated fact says a cache outlives a config",
         "crypto/tls, crypto/x509, net.SplitHostPort, net/url Hostname, pbkdf2, aes, kcp: contract only (hypothesis-level record X509, clientAccepts/serverAdmits, splitHostPort/urlHostname models compared with the real functions through startTls)",
     ],
     "assumptions": [
